@@ -125,10 +125,16 @@ func NewJSONRPCNotificationFromMap(method string, params map[string]interface{})
 
 	// Extract meta field if present
 	if meta, ok := params["_meta"]; ok {
-		if metaMap, ok := meta.(map[string]interface{}); ok {
+		// Only a value that is taken over is removed from the params; a _meta of any other type
+		// stays among the additional fields and is encoded as it is.
+		switch metaMap := meta.(type) {
+		case map[string]interface{}:
 			notificationParams.Meta = metaMap
+			delete(params, "_meta")
+		case Meta:
+			notificationParams.Meta = metaMap
+			delete(params, "_meta")
 		}
-		delete(params, "_meta")
 	}
 
 	// Add remaining fields to AdditionalFields
